@@ -141,11 +141,23 @@ def _library_cached(key):
 
 
 def build(spec):
+    tab = _build(spec)
+    e = spec.get("mu_unit", 0)
+    if e:
+        # the same fluid in another unit of viscosity (cP -> Pa s is 1e-3; 1e12 gives diffusivities of ~1e-9 as in SI
+        # units for a nanodarcy rock): viscosity x 10^e, pseudopressure (integral of 2p/(mu z)) x 10^-e.  The scaled
+        # problem depends on alpha / alpha_i and on m * (c mu z / 2p)(p_i) only, so nothing an oracle uses changes
+        tab["viscosity"] = tab["viscosity"] * 10.0**e
+        tab["pseudopressure"] = tab["pseudopressure"] * 10.0**-e
+    return tab
+
+
+def _build(spec):
     fam = spec["family"]
     if fam == "shipped":
         return _shipped(spec)
     if fam == "library":
-        t = _library_cached(json.dumps(spec, sort_keys=True))
+        t = _library_cached(json.dumps({k: v for k, v in spec.items() if k != "mu_unit"}, sort_keys=True))
         return {c: v.copy() for c, v in t.items()}
     return _synthetic(spec)
 
@@ -242,11 +254,14 @@ def library_spec(draw, pmax_hi=1500.0):
     return {"family": "library", "N2": 0.01, "H2S": 0.0, "CO2": co2, "sg": sg, "T": T, "dryness": draw(st.sampled_from(["dry gas", "wet gas"])), "pmax": pmax}
 
 
-def table_spec(nmax=120, with_library=True, families=("power", "power1", "kinked", "realgas")):
+@st.composite
+def table_spec(draw, nmax=120, with_library=True, families=("power", "power1", "kinked", "realgas")):
     opts = [shipped_spec(), synthetic_spec(nmax, families), synthetic_spec(nmax, families)]
     if with_library:
         opts.append(library_spec())
-    return st.one_of(*opts)
+    spec = dict(draw(st.one_of(*opts)))
+    spec["mu_unit"] = draw(st.sampled_from([0, 0, 0, 0, -3, 3, 6, 12, 15, -6]))
+    return spec
 
 
 @st.composite
